@@ -74,7 +74,7 @@ def pad_chart(ch, rng, target_states):
 def make_case(seed, dm='lua', size=None):
     rng = random.Random(seed)
     if seed < 0:
-        ch, hist = C.gen_done_chart(-seed) if seed % 2 == 0 else C.gen_hist_chart(-seed)      # done.state family / history family
+        ch, hist = (C.gen_done_chart, C.gen_hist_chart, C.gen_conflict_chart)[seed % 3](-seed)      # done.state / history / conflict family
     else:
         ch, hist = C.gen_chart(seed, data=True, errors=False, dataexpr=False, orcond=False)   # the C scaffold's built-in integer datamodel has no 'or'
     if size: pad_chart(ch, rng, size)
